@@ -811,9 +811,17 @@ func rulesC07(w *World, o *Out) {
 		for _, b := range ra.Blocks {
 			for _, in := range b.Instrs {
 				if d, ok := in.(*ssa.Defer); ok {
+					// the deferred function: a closure, or a named function / method of the module
+					var df *ssa.Function
 					if mc, ok := d.Call.Value.(*ssa.MakeClosure); ok {
-						for _, s := range CallsIn(mc.Fn.(*ssa.Function)) {
+						df, _ = mc.Fn.(*ssa.Function)
+					} else if sc := d.Call.StaticCallee(); sc != nil && strings.HasPrefix(funcPkgPath(sc), modPath) {
+						df = sc
+					}
+					if df != nil {
+						for _, s := range CallsDeep(df) {
 							if s.Callee.Name == "setTxAsAlreadyProcessed" {
+								marked = true
 								def = true
 								// registered before any dispatch
 								for _, e := range ex {
@@ -904,6 +912,30 @@ func rulesC07(w *World, o *Out) {
 
 // receiptGate: a block reads GetReceipt() status, and from the "status != successful" edge the dispatch is unreachable.
 func receiptGate(w *World, f *ssa.Function, dispatch ssa.Instruction) bool {
+	// helper form: `if err := ensureReceiptSuccessful(winner); err != nil { return err }` -- on every nil return
+	// of the helper either the winner is not a transaction proof or its receipt status equals "successful"
+	okPath := func(fa Fact) bool {
+		switch fa.Kind {
+		case FFalse:
+			if ex, ok := canon(fa.V).(*ssa.Extract); ok {
+				if ta, ok := ex.Tuple.(*ssa.TypeAssert); ok && strings.Contains(ta.AssertedType.String(), "TxExecutedProof") {
+					return true
+				}
+			}
+		case FCmp:
+			if fa.Op == token.EQL {
+				nx, _ := loadedField(fa.X)
+				ny, _ := loadedField(fa.Y)
+				if nx == "Status" || ny == "Status" {
+					return true
+				}
+			}
+		}
+		return false
+	}
+	if holdsOnAllPaths(dispatch.Block(), okPath) {
+		return true
+	}
 	for _, b := range f.Blocks {
 		iff, ok := b.Instrs[len(b.Instrs)-1].(*ssa.If)
 		if !ok {
